@@ -30,12 +30,12 @@ ASSUMPTIONS = [
     'FermiHubbardModel parameters are valid (constructor ValueErrors are not explored)',
 ]
 OPEN_STATEMENTS = [
-    'hubbard_sound (operator-level: the Model output of fermi_hubbard / bose_hubbard / mean_field_dwave / FermiHubbardModel denotes the docstring formula for ALL sizes) is not a theorem: covered by the docstring / spec.eq oracles on the explored lattices; proved for all sizes: the bond enumerations equal the Spec edge set (bonds_spec, dwave_bonds_spec, lattice_neighbors_spec, diagonal_neighbors_spec, neighbors_ordered_perm, diagonal_ordered_perm, hubbard_generators_agree_bonds), every generated term has zero charge for N (and S_z where the model conserves it) and zero-charge terms preserve the Spec weight of basis states (term_charge_sound), the grid index bijection',
-    'hermitian_generators is covered by the spec.eq oracle only',
+    'hubbard_sound is proved for the spinless and spinful fermi_hubbard and for the bose_hubbard Model for ALL lattice sizes (spinless_hubbard_sound / spinless_hubbard_sound_edges / spinless_hubbard_sound_spec [matrix elements of the Spec action, no hypothesis on the functional] / spinful_hubbard_sound + spin_site_terms / bose_hubbard_sound: den phi of the site-loop fold = docstring formula summed over the Spec edge set) under the hypotheses ExactSum (every += in the exact regime; holds for the generated dyadic couplings, checked by the correspondence run, not proved in general), real hopping amplitude, phi(n_i n_j) = phi(n_j n_i) (spinless only, discharged for the Spec matrix elements; the spinful and bose theorems hold for every phi); mean_field_dwave, FermiHubbardModel and the particle-hole docstring form are still covered by the docstring / spec.eq oracles only; also proved for all sizes: the bond enumerations equal the Spec edge set, every generated term has zero charge for N (and S_z where conserved) and zero-charge terms preserve the Spec weight of basis states, the grid index bijection',
+    'hermitian_generators is proved for the spinless fermi_hubbard Model (spinless_hubbard_hermitian, same hypotheses as hubbard_sound, real t / U / mu); for the other generators it is covered by the spec.eq / dictionary oracles only',
     'onsite edge type and spin_pairs_iter: correspondence + Spec oracle only',
     'bose_hubbard / mean_field_dwave / FermiHubbardModel: S_z conservation of FermiHubbardModel is covered by the spec.eq oracle only',
     'su2_relations for all n: oracle only (n <= 3)',
-    'RichardsonGaudin: Model + documented-form oracle only, no theorem; get_antisymmetrized_tensors is not covered',
+    'RichardsonGaudin: richardson_gaudin_documented proves the documented form for every n under ExactRG (exact regime of every + / sum step; not discharged in general, it holds for the dyadic g generated); get_antisymmetrized_tensors is not covered',
     'fourier_transform_unitary_structure / isospectrality: numeric oracle only',
     'dual_basis_jellium_model ignores non_periodic / period_cutoff (the truncated Coulomb factor is only applied in plane_wave_potential): known finding C13-dual-basis-non-periodic',
     'isospectrality of momentum-space and position-space jellium fails on non-orthogonal cells with mixed even / >= 3 grid lengths: known finding C13-jellium-sheared-even',
@@ -1099,7 +1099,7 @@ def stream_grid(ctx):
         except Exception as e:  # noqa: BLE001
             s.violate('Grid geometry function raised', cg, repr(e))
         for spinless in (True, False):
-            if not spinless and npts > 9 and ctx.tier != 'thorough':
+            if not spinless and npts >= 6 and ctx.tier != 'thorough':
                 continue
             if npts * (1 if spinless else 2) > 32:
                 continue
